@@ -147,11 +147,12 @@ def random_doc(rng, max_nodes=40, anim_styles=False, space=False, ruby=True):
             sk = add(sub, rk, timed=False, regable=False)
             disp[sk - 1] = ""
             anim[sk - 1] = []
-            sp = add("span", sk, timed=False, regable=False)
-            disp[sp - 1] = ""
-            anim[sp - 1] = []
-            tk = add("text", sp)
-            txt[tk - 1] = 1
+            for _s in range(2 if (space and rng.random() < 0.5) else 1):
+              sp = add("span", sk, timed=False, regable=False)
+              disp[sp - 1] = ""
+              anim[sp - 1] = []
+              tk = add("text", sp)
+              txt[tk - 1] = 1
         else:
           k = add("span", p)
           grow(k, "span", depth + 1)
@@ -179,6 +180,12 @@ def random_doc(rng, max_nodes=40, anim_styles=False, space=False, ruby=True):
         "idisp": rng.choice(["", "", "", "", "", "", "", "", "none", "auto"]), "D": D}
   if space:
     ad["space"] = spc
+    # literal texts with white space in all positions (exercises collapsing, empty-text and empty-span pruning)
+    lits = [" ", "  ", "\n", " a", "a ", " a b ", "a\tb", "\n x \n", "xy", ""]
+    ad["text"] = [None] * len(kind)
+    for k in range(len(kind)):
+      if kind[k] == "text" and rng.random() < 0.45:
+        ad["text"][k] = rng.choice(lits)
   return ad
 
 
